@@ -82,6 +82,7 @@ def compare(case, impl, model):
     if case["op"] == "machine": return _s.compare(case, impl, model)
     if case["op"] == "tree":
         return tree_compare(case, impl, model)
+    if case["op"] == "prompt": impl = {k: v for k, v in impl.items() if k != "strs"}        # (the intermediate printings are judged by the oracle)
     return plain_compare(case, impl, model)
 
 
@@ -146,15 +147,18 @@ def monitor(case, obs):
     if case["op"] == "prompt":
         d = {}; msg = case["message"]
         STD = {"refresh": ("r", "to refresh"), "continue": ("c", "to continue"), "quit": ("q", "to quit"), "help": ("h", "to help")}
-        for op in case["ops"]:
+        def text():
+            if not msg and not d: return ""
+            parts = ([msg] if msg else []) + (["[" + ", ".join("'%s' %s" % (k, d[k]) for k in sorted(d)) + "]"] if d else [])
+            return " ".join(parts) + ": "
+        # the prompt is printed before every edit and at the end: each time it lists exactly the options defined at that moment
+        for n_, op in enumerate(case["ops"]):
+            if "strs" in obs and obs["strs"][n_] != text(): return "before edit #%d (%r) str(prompt) = %r, expected %r" % (n_, op, obs["strs"][n_], text())
             if op[0] == "set": d[op[1]] = op[2]
             elif op[0] == "std": d[STD[op[1]][0]] = STD[op[1]][1] if op[2] is None else op[2]
             elif op[0] == "remove": d.pop(op[1], None)
             else: msg = op[1]
-        if not msg and not d: exp = ""
-        else:
-            parts = ([msg] if msg else []) + (["[" + ", ".join("'%s' %s" % (k, d[k]) for k in sorted(d)) + "]"] if d else [])
-            exp = " ".join(parts) + ": "
+        exp = text()
         if obs["str"] != exp: return "str(prompt) = %r, expected %r" % (obs["str"], exp)
         return None
     if case["op"] == "tree" and case["tree"][0] == "window":
